@@ -10,7 +10,7 @@ from ..gens import DTYPES, EPS, fl
 from ..oracles import riskmp as R
 from ..oracles.exact import round_to
 from ..riskgen import NP, build, build_nonneg, columns, nonneg_spec, sample_spec, shape_s, sub_dtype, to_torch
-from .c05 import (A_S, AX_MAX, LAM_S, QCVAR_KINDS, QCVAR_SCALES, QCVAR_SHIFTS, UTIL_SCALES, _nan_or_inf, p_spec_s,
+from .c05 import (A_S, AX_MAX, AX_MAX_OF, LAM_S, QCVAR_KINDS, QCVAR_SCALES, QCVAR_SHIFTS, UTIL_SCALES, _nan_or_inf, p_spec_s,
                   qcvar_sut, resolve_p)
 
 PROPERTY_ID = "C04"
@@ -453,7 +453,8 @@ def check_utilloss(case, ctx):
         a = case["a"]
     else:
         m = max(float(np.max(np.abs(v))) for v in S.values())
-        a = case["a"] if case["a"] * m <= AX_MAX else AX_MAX / m
+        cap = AX_MAX_OF[dtype]  # the loss value itself must stay representable in the dtype (84 / 700), not more
+        a = case["a"] if case["a"] * m <= cap else cap / m
     label = "C04/" + which
     mod = IsoelasticLoss(a) if iso else EntropicLoss(a)
     G = {}
@@ -475,6 +476,14 @@ def check_utilloss(case, ctx):
         tolf = R.isoelastic_loss_tol if iso else R.entropic_loss_tol
         gx, gy, gb, gm = (G[k][idx].item() for k in ("x", "y", "better", "mix"))
         ex, ey, eb, em = (Fr(tolf(c, a, eps)) for c in (xcol, ycol, bcol, mcol))
+        if not iso and not any(_nan_or_inf(v) for v in (gx, gy, gb, gm)):
+            # the definition-based bound eps * mean(exp_i * (2a|x_i|+n+8)) never exceeds eps * (2a max|x|+n+8) * loss: cap it by
+            # that multiple of the COMPUTED loss (equal within 1% on correct code), so that a loss which is far too small -
+            # e.g. silently saturated - does not hide behind the rounding error of the value it should have had
+            def cap(e, g, c):
+                alt = Fr(1.01 * eps * (2 * a * max(abs(v) for v in c) + len(c) + 8) * abs(g)) + Fr(4 * R.tiny(eps))
+                return min(e, alt)
+            ex, ey, eb, em = cap(ex, gx, xcol), cap(ey, gy, ycol), cap(eb, gb, bcol), cap(em, gm, mcol)
         if any(_nan_or_inf(v) for v in (gx, gy, gb, gm)):
             ctx.fail(label + "/monotone", f"column {idx}: non-finite loss {[gx, gy, gb, gm]}", column=list(idx))
             return
